@@ -94,6 +94,66 @@ pub fn outcome(pattern: &Pattern<SupportLang>, cand: &N, p: &proj::Projection) -
   }
 }
 
+/// The pattern text as the parser sees it, computed without the pattern code under test: `$` becomes the language's
+/// expando character, the text is parsed, and the single node it parses to (of the candidate's kind)
+/// is tabulated (preorder ids, root = 1): a node whose text is a meta-variable spelling is a hole, a leaf is a token,
+/// anything else keeps all its children (nodes the parser invented - MISSING - aside).  None when the text does not
+/// parse to such a node.
+pub fn reference_table(lang: SupportLang, pattern_text: &str, kind_id: u16) -> Option<Vec<Value>> {
+  use ast_grep_core::Language;
+  let ex = lang.expando_char();
+  let text: String = pattern_text.chars().map(|c| if c == '$' { ex } else { c }).collect();
+  let g = lang.ast_grep(&text);
+  // the pattern is the single node the text parses to: from the root down while a node has exactly one child
+  let mut root = g.root();
+  loop {
+    let t = root.get_ts_node();
+    if t.child_count() != 1 || spelling(&root.text(), ex).is_some() {
+      break;
+    }
+    root = root.child(0)?;
+  }
+  if root.kind_id() != kind_id {
+    return None;
+  }
+  fn spelling(t: &str, ex: char) -> Option<Value> {
+    let sig = t.chars().take_while(|c| *c == ex).count();
+    let name: String = t.chars().skip(sig).collect();
+    let ok_name = |n: &str| n.chars().next().map(|c| c.is_ascii_uppercase() || c == '_').unwrap_or(false)
+      && n.chars().all(|c| c.is_ascii_uppercase() || c.is_ascii_digit() || c == '_');
+    match sig {
+      1 | 2 if ok_name(&name) => Some(if name.starts_with('_') { json!({"ty": "dropped", "name": "", "named": sig == 1}) }
+                                      else { json!({"ty": "capture", "name": name, "named": sig == 1}) }),
+      3 if name.is_empty() || name.starts_with('_') && ok_name(&name) => Some(json!({"ty": "multiple", "name": "", "named": false})),
+      3 if ok_name(&name) => Some(json!({"ty": "multicap", "name": name, "named": false})),
+      _ => None,
+    }
+  }
+  fn rec(n: &N, ex: char, out: &mut Vec<Value>) -> usize {
+    let id = out.len() + 1;
+    let none = json!({"ty": "none", "name": "", "named": false});
+    let t = n.text();
+    if let Some(mv) = spelling(&t, ex) {
+      out.push(json!({"ty": "M", "kid": 0, "nm": false, "t": "", "mv": mv, "ch": []}));
+    } else if n.get_ts_node().child_count() == 0 {
+      out.push(json!({"ty": "T", "kid": n.kind_id(), "nm": n.is_named(), "t": t, "mv": none, "ch": []}));
+    } else {
+      out.push(json!({"ty": "I", "kid": n.kind_id(), "nm": true, "t": "", "mv": none, "ch": []}));
+      let mut ch = vec![];
+      for c in n.children() {
+        if !c.get_ts_node().is_missing() {
+          ch.push(rec(&c, ex, out));
+        }
+      }
+      out[id - 1]["ch"] = json!(ch);
+    }
+    id
+  }
+  let mut out = vec![];
+  rec(&root, ex, &mut out);
+  Some(out)
+}
+
 /// one record: pattern text parsed in `lang`, matched against `cand` at all five levels
 pub fn match_record(
   id: &str,
@@ -102,8 +162,28 @@ pub fn match_record(
   cand: &N,
   extra: Value,
 ) -> Option<Value> {
-  let base = catch_unwind(AssertUnwindSafe(|| Pattern::try_new(pattern_text, lang))).ok()?.ok()?;
+  let is_cut = extra["mode"] == "cut";
+  let rt = if is_cut { reference_table(lang, pattern_text, cand.kind_id()) } else { None };
   let p = proj::project(cand, true);
+  let base = match catch_unwind(AssertUnwindSafe(|| Pattern::try_new(pattern_text, lang))) {
+    Ok(Ok(b)) => b,
+    _ => {
+      // the pattern was refused: for a pattern cut from this very node that is an outcome, not a reason to skip it
+      let rt = rt?;
+      let no = json!({"ok": false, "panic": false, "single": {}, "multi": {}, "len": -1});
+      let mut rec = json!({
+        "id": id, "lang": util::lang_name(lang), "pattern": pattern_text, "cand": cand.text().chars().take(300).collect::<String>(),
+        "PT": rt.clone(), "RT": rt, "nopat": true, "T": slim_table(&p),
+        "outs": LEVELS.iter().map(|lv| (lv.to_string(), no.clone())).collect::<Map<String, Value>>(),
+      });
+      if let Value::Object(m) = extra {
+        for (k, v) in m {
+          rec[k] = v;
+        }
+      }
+      return Some(rec);
+    }
+  };
   let pt = pattern_table(&base.node);
   let mut outs = Map::new();
   for lv in LEVELS {
@@ -113,7 +193,7 @@ pub fn match_record(
   let mut rec = json!({
     "id": id, "lang": util::lang_name(lang), "pattern": pattern_text,
     "cand": cand.text().chars().take(300).collect::<String>(),
-    "PT": pt, "T": slim_table(&p), "outs": outs,
+    "PT": pt, "RT": rt.unwrap_or_default(), "nopat": false, "T": slim_table(&p), "outs": outs,
   });
   if let Value::Object(m) = extra {
     for (k, v) in m {
